@@ -750,16 +750,27 @@ func TestVerifC07Unit(t *testing.T) {
 	// --- filterAuthorityRecords + clearAdditional --------------------------------------------
 	for c := 0; c < n/10; c++ {
 		owner := vC07RandQName(r)
+		if r.Intn(8) == 0 && len(owner) > 1 {
+			owner = append(vC07Name{"*"}, owner[1:]...)
+		}
+		covers := []uint16{dns.TypeSOA, dns.TypeNSEC, dns.TypeNSEC3, dns.TypeNS, dns.TypeA}
 		mk := func(cnt int) []vC07RRSpec {
 			var out []vC07RRSpec
 			for i := 0; i < cnt; i++ {
 				s := vC07RRSpec{owner: owner, class: dns.ClassINET, ttl: 60}
+				// records owned by the answering name, by a relative of it, or by a name of another zone altogether
+				switch r.Intn(4) {
+				case 0:
+					s.owner, _ = vC07Relative(r, owner)
+				case 1:
+					s.owner = vC07Name{"www", "victim", "l2"}
+				}
 				s.rrtype = []uint16{dns.TypeSOA, dns.TypeNS, dns.TypeNSEC, dns.TypeNSEC3, dns.TypeRRSIG, dns.TypeDS, dns.TypeA, dns.TypeTXT}[r.Intn(8)]
 				switch s.rrtype {
 				case dns.TypeNS:
 					s.target = owner
 				case dns.TypeRRSIG:
-					s.covered = dns.TypeSOA
+					s.covered = covers[r.Intn(len(covers))]
 				case dns.TypeA:
 					s.ip = []byte{198, 51, 100, byte(i)}
 				}
@@ -767,64 +778,83 @@ func TestVerifC07Unit(t *testing.T) {
 			}
 			return out
 		}
-		ns, extra := mk(r.Intn(6)), mk(r.Intn(5))
-		flt := res.filterAuthorityRecords(vC07RRs(ns))
-		// which indices survived (records are compared by identity of position: the filter keeps order)
-		var idx []string
-		j := 0
-		all := vC07RRs(ns)
-		for i := range all {
-			if j < len(flt) && dns.IsDuplicate(all[i], flt[j]) && all[i].Header().Rrtype == flt[j].Header().Rrtype {
-				idx = append(idx, fmt.Sprint(i))
-				j++
-			}
+		// the Answer section of the positive answer: the RRset, often with a signature whose Labels field is the
+		// owner's label count, smaller (what a wildcard expansion looks like), zero or larger; now and then an alias in front
+		answer := []vC07RRSpec{{owner: owner, rrtype: dns.TypeA, class: dns.ClassINET, ttl: 5, ip: []byte{198, 51, 100, 9}}}
+		if r.Intn(3) != 0 {
+			answer = append(answer, vC07RRSpec{owner: owner, rrtype: dns.TypeRRSIG, class: dns.ClassINET, ttl: 5, covered: dns.TypeA, labelsDelta: []int{0, -1, -1, -2, -9, 1}[r.Intn(6)]})
 		}
-		req := new(dns.Msg)
-		req.SetQuestion(owner.String(), dns.TypeA)
-		reqOpt := r.Intn(2) == 0
-		if reqOpt {
-			req.SetEdns0(1232, true)
+		if r.Intn(6) == 0 {
+			al := append(vC07Name{"alias"}, owner...)
+			answer = append([]vC07RRSpec{{owner: al, rrtype: dns.TypeCNAME, class: dns.ClassINET, ttl: 5, target: owner},
+				{owner: al, rrtype: dns.TypeRRSIG, class: dns.ClassINET, ttl: 5, covered: dns.TypeCNAME, labelsDelta: -r.Intn(2)}}, answer...)
 		}
-		resp := &dns.Msg{}
-		resp.Answer = []dns.RR{vC07RRSpec{owner: owner, rrtype: dns.TypeA, class: dns.ClassINET, ttl: 5, ip: []byte{198, 51, 100, 9}}.rr()}
-		resp.Ns = vC07RRs(ns)
-		resp.Extra = vC07RRs(extra)
-		keepCoq := "None"
-		var out *dns.Msg
-		switch r.Intn(3) {
-		case 0:
-			out = res.clearAdditional(req, resp)
-		case 1:
-			out = res.clearAdditional(req, resp, false)
-			keepCoq = "(Some false)"
-		default:
-			out = res.clearAdditional(req, resp, true)
-			keepCoq = "(Some true)"
-		}
-		optLeft, nonOpt := false, 0
-		for _, rr := range out.Extra {
-			if rr.Header().Rrtype == dns.TypeOPT {
-				optLeft = true
-			} else {
-				nonOpt++
-			}
-		}
-		emit(map[string]any{
-			"k": "sections",
-			"coq": fmt.Sprintf("CaseSections %s %s %v %s [%s] %d %d %v", vC07CoqRRs(ns), vC07CoqRRs(extra), reqOpt, keepCoq,
-				strings.Join(idx, ";"), len(out.Ns), nonOpt, optLeft),
-			"nontrivial": len(ns)+len(extra) > 0,
-			"go_fail": func() string {
-				if len(flt) != j {
-					return "filterAuthorityRecords reordered or invented records"
-				}
-				if len(out.Answer) != 1 {
-					return "clearAdditional touched the answer section"
-				}
-				return ""
-			}(),
-			"desc": map[string]any{"ns": vC07DescRRs(ns), "extra": vC07DescRRs(extra), "req_opt": reqOpt, "keep": keepCoq,
-				"filtered_idx": idx, "ns_left": len(out.Ns), "extra_left": nonOpt, "opt_left": optLeft},
-		})
+		vC07SectionsOne(res, "sections", owner, answer, mk(r.Intn(6)), mk(r.Intn(5)), r.Intn(3), r.Intn(2) == 0, r.Intn(3), emit)
 	}
+}
+
+// vC07SectionsOne: the real filterAuthorityRecords on [ns], and the real clearAdditional on the positive answer
+// (answer, ns, extra) for a request with no OPT record (edns 0), with one (1) or with one that sets DO (2)
+func vC07SectionsOne(res *Resolver, kind string, owner vC07Name, answer, ns, extra []vC07RRSpec, edns int, cd bool, keep int, emit func(map[string]any)) {
+	flt := res.filterAuthorityRecords(vC07RRs(ns))
+	// which indices survived (records are compared by identity of position: the filter keeps order)
+	var idx []string
+	j := 0
+	all := vC07RRs(ns)
+	for i := range all {
+		if j < len(flt) && dns.IsDuplicate(all[i], flt[j]) && all[i].Header().Rrtype == flt[j].Header().Rrtype {
+			idx = append(idx, fmt.Sprint(i))
+			j++
+		}
+	}
+	req := new(dns.Msg)
+	req.SetQuestion(owner.String(), dns.TypeA)
+	req.CheckingDisabled = cd
+	reqOpt := edns > 0
+	if reqOpt {
+		req.SetEdns0(1232, edns == 2)
+	}
+	resp := &dns.Msg{}
+	resp.Answer = vC07RRs(answer)
+	resp.Ns = vC07RRs(ns)
+	resp.Extra = vC07RRs(extra)
+	keepCoq := "None"
+	var out *dns.Msg
+	switch keep {
+	case 0:
+		out = res.clearAdditional(req, resp)
+	case 1:
+		out = res.clearAdditional(req, resp, false)
+		keepCoq = "(Some false)"
+	default:
+		out = res.clearAdditional(req, resp, true)
+		keepCoq = "(Some true)"
+	}
+	optLeft, nonOpt := false, 0
+	for _, rr := range out.Extra {
+		if rr.Header().Rrtype == dns.TypeOPT {
+			optLeft = true
+		} else {
+			nonOpt++
+		}
+	}
+	goFail := ""
+	if len(flt) != j {
+		goFail = "filterAuthorityRecords reordered or invented records"
+	}
+	if len(out.Answer) != len(answer) {
+		goFail = "clearAdditional touched the answer section"
+	}
+	for _, rr := range out.Ns {
+		goFail = fmt.Sprintf("the positive answer for %s leaves clearAdditional with %s in its authority section", owner, vC07Ident(rr))
+	}
+	emit(map[string]any{
+		"k": kind,
+		"coq": fmt.Sprintf("CaseSections %s %s %v %s [%s] %d %d %v", vC07CoqRRs(ns), vC07CoqRRs(extra), reqOpt, keepCoq,
+			strings.Join(idx, ";"), len(out.Ns), nonOpt, optLeft),
+		"nontrivial": len(ns)+len(extra) > 0, "go_fail": goFail,
+		"desc": map[string]any{"question": owner.String(), "answer": vC07DescRRs(answer), "ns": vC07DescRRs(ns), "extra": vC07DescRRs(extra),
+			"req_opt": reqOpt, "req_do": edns == 2, "req_cd": cd, "keep": keepCoq,
+			"filtered_idx": idx, "ns_left": len(out.Ns), "extra_left": nonOpt, "opt_left": optLeft},
+	})
 }
